@@ -2100,6 +2100,8 @@ def impl(line):
         return impl_sappend(t)
     if t[0] == "pcons":
         return impl_pcons(t)
+    if t[0] == "gbparse":
+        return impl_gbparse(t)
     return impl_mk(t)
 
 
@@ -2219,4 +2221,79 @@ def impl_pcons(t):
         if got != want and not (want is not None and got is not None and got[:3] == want[:3]):
             return "ok illformed result-on-another-parent"
         return "ok wf"
+    return guarded(go)
+
+
+# ----------------------------------------------------------------------------------------------
+# parser entry points on malformed-but-parseable feature lists (GenBank: the three parser classes)
+#   gbparse <S|L|H> <n> REC*      token codec and SeqRecord construction of harness/impl_genbank.py (C12, read-only)
+# Answer: `ok wf` when the parser returned gene / feature models, else the exception class (this module's classifier).
+
+def gb_feature_lists():
+    """deterministic pool: name -> list of (type, strand, parts, qualifiers)"""
+    A, B = {"locus_tag": ["A"]}, {"locus_tag": ["B"]}
+    gene = ("gene", "+", [(0, 30)], A)
+    mrna = ("mRNA", "+", [(0, 9), (15, 30)], A)
+    cds = ("CDS", "+", [(3, 9), (15, 24)], dict(A, codon_start=["1"]))
+    pool = {
+        "empty": [],
+        "exon_only": [("exon", "+", [(0, 9)], A), ("exon", "+", [(3, 12)], A)],
+        "exon_one": [("exon", "+", [(0, 9)], A)],
+        "intron_only": [("intron", "+", [(9, 15)], A)],
+        "exon_then_gene": [("exon", "+", [(0, 9)], A), gene],
+        "gene_exon": [gene, ("exon", "+", [(0, 9)], A)],
+        "gene_only": [gene],
+        "gene_mrna": [gene, mrna],
+        "gene_cds": [gene, cds],
+        "gene_mrna_cds": [gene, mrna, cds],
+        "cds_only": [cds],
+        "cds_noquals": [("CDS", "+", [(3, 9)], {})],
+        "mrna_only": [mrna],
+        "cds_before_gene": [cds, gene],
+        "mrna_cds_no_gene": [mrna, cds],
+        "two_genes_same_tag": [gene, ("gene", "+", [(40, 60)], A)],
+        "two_genes": [gene, cds, ("gene", "-", [(40, 60)], B), ("CDS", "-", [(40, 55)], B)],
+        "gene_untagged_cds_tagged": [("gene", "+", [(0, 30)], {}), cds],
+        "gene_tagged_cds_untagged": [gene, ("CDS", "+", [(3, 9)], {})],
+        "gene_trna": [gene, ("tRNA", "+", [(0, 30)], A)],
+        "gene_ncrna_noclass": [gene, ("ncRNA", "+", [(0, 30)], A)],
+        "ncrna_only": [("ncRNA", "+", [(0, 30)], dict(A, ncRNA_class=["lncRNA"]))],
+        "codon_start_4": [gene, ("CDS", "+", [(3, 9)], dict(A, codon_start=["4"]))],
+        "codon_start_x": [gene, ("CDS", "+", [(3, 9)], dict(A, codon_start=["x"]))],
+        "codon_start_0": [gene, ("CDS", "+", [(3, 9)], dict(A, codon_start=["0"]))],
+        "codon_start_blank": [gene, ("CDS", "+", [(3, 9)], dict(A, codon_start=[""]))],
+        "mixed_strands": [gene, ("CDS", "-", [(3, 9)], A)],
+        "cds_outside_gene": [gene, ("CDS", "+", [(40, 49)], A)],
+        "cds_two_mrnas": [gene, mrna, ("mRNA", "+", [(0, 30)], A), cds],
+        "two_cds_one_mrna": [gene, mrna, cds, ("CDS", "+", [(3, 9)], A)],
+        "misc_feature_only": [("misc_feature", "+", [(2, 8)], A)],
+        "misc_feature_untagged": [("misc_feature", "+", [(2, 8)], {})],
+        "repeat_and_gene": [("repeat_region", ".", [(2, 8)], A), gene, cds],
+        "unstranded_gene": [("gene", ".", [(0, 30)], A), ("CDS", ".", [(3, 9)], A)],
+        "unstranded_exon": [("exon", ".", [(0, 9)], A)],
+        "pseudo_gene": [("gene", "+", [(0, 30)], dict(A, pseudo=[""]))],
+        "empty_locus_tag": [("gene", "+", [(0, 30)], {"locus_tag": [""]}), ("CDS", "+", [(3, 9)], {"locus_tag": [""]})],
+        "gene_qualifier_only": [("gene", "+", [(0, 30)], {"gene": ["g"]}), ("CDS", "+", [(3, 9)], {"gene": ["g"]})],
+        "source_only": [("source", "+", [(0, 60)], {})],
+        "cds_minus_join": [("gene", "-", [(0, 30)], A), ("CDS", "-", [(15, 24), (3, 9)], A)],
+        "cds_overlapping_parts": [gene, ("CDS", "+", [(3, 12), (9, 24)], A)],
+    }
+    return pool
+
+
+def gb_lines():
+    from harness.impl_genbank import enc_rec
+    for name, recs in gb_feature_lists().items():
+        body = " ".join([str(len(recs))] + [enc_rec(r[0], r[1], r[2], list(r[3].items())) for r in recs])
+        for mode in "SLH":
+            yield f"gbparse {mode} {name} {body}"
+
+
+def impl_gbparse(t):
+    from harness import impl_genbank as GB
+
+    def go():
+        tk = GB.Toks([t[1]] + t[3:])
+        out = GB._gbp(tk)
+        return "ok wf" if out.startswith("ok") else out
     return guarded(go)
